@@ -1015,3 +1015,92 @@ func init() {
 		},
 	})
 }
+
+func init() {
+	register(&Rule{
+		ID: "C20-f", Template: "T10 contradiction (a hash is identified by all of its bytes)",
+		Doc: "Membership is decided on the whole 16-byte hash: in pkg/index no bytes.Equal / bytes.Compare is applied to a re-sliced part of a hash (x[k:], x[:m] with constant k > 0 or m < 16, on either operand), and no map is keyed by an integer read out of a hash (binary.BigEndian.Uint64/Uint32/Uint16 of hash bytes, or a conversion of a few of them). 'They share the fan-out bucket, so the first byte can be skipped' is true of the search inside a bucket and false of the equality probe that follows it when the bucket is empty or the hash sorts after it; a pending-set keyed by the first eight bytes takes two different hashes for one. Either way Has answers for a hash that was never added, or Add drops one that was not there.",
+		Min: 0,
+		Run: func(p *Program, r *RuleResult) error {
+			if _, err := p.SSAFunc("pkg/index.(*HashSet).Has"); err != nil {
+				return err
+			}
+			fns := p.FuncsInPkg("pkg/index")
+			r.Analysed = len(fns)
+			partial := func(v ssa.Value) bool {
+				s, ok := stripConv(v).(*ssa.Slice)
+				if !ok {
+					return false
+				}
+				if s.Low != nil {
+					if k, isC := constInt(s.Low); isC && k > 0 {
+						return true
+					}
+				}
+				if s.High != nil {
+					if k, isC := constInt(s.High); isC && k < 16 {
+						return true
+					}
+				}
+				return false
+			}
+			for _, fn := range fns {
+				n := 0
+				for _, b := range fn.Blocks {
+					for _, in := range b.Instrs {
+						switch x := in.(type) {
+						case *ssa.Call:
+							f := calleeFunc(x)
+							if f == nil || f.Pkg() == nil || f.Pkg().Path() != "bytes" || (f.Name() != "Equal" && f.Name() != "Compare") || len(x.Call.Args) != 2 {
+								continue
+							}
+							if partial(x.Call.Args[0]) || partial(x.Call.Args[1]) {
+								r.bad(fmt.Sprintf("%s|partial-compare#%d", funcName(fn), n), p.Rel(x.Pos()), "hashes are compared on all of their bytes", "bytes."+f.Name()+" is applied to a part of the hash")
+								n++
+							}
+						case *ssa.MapUpdate, *ssa.Lookup:
+							var key ssa.Value
+							if mu, ok := x.(*ssa.MapUpdate); ok {
+								key = mu.Key
+							} else if lk, ok := x.(*ssa.Lookup); ok {
+								if _, isMap := lk.X.Type().Underlying().(*types.Map); !isMap {
+									continue
+								}
+								key = lk.Index
+							}
+							bt, ok := key.Type().Underlying().(*types.Basic)
+							if !ok || bt.Info()&types.IsInteger == 0 {
+								continue
+							}
+							fromBytes := false
+							for y := range backward(key, nil) {
+								if c, ok := y.(*ssa.Call); ok {
+									if isBigEndianWide(c) {
+										fromBytes = true
+									}
+									if sc := c.Call.StaticCallee(); sc != nil && fnPkgPath(sc) == fnPkgPath(fn) {
+										for _, rb := range sc.Blocks {
+											for _, ri := range rb.Instrs {
+												if cc, ok := ri.(*ssa.Call); ok && isBigEndianWide(cc) {
+													fromBytes = true
+												}
+											}
+										}
+									}
+								}
+							}
+							if fromBytes {
+								r.bad(fmt.Sprintf("%s|partial-key#%d", funcName(fn), n), p.Rel(in.Pos()), "hashes are compared on all of their bytes", "a map is keyed by an integer read out of a hash: two hashes that share those bytes are one key")
+								n++
+							}
+						}
+					}
+				}
+			}
+			if len(r.Obligations) == 0 {
+				r.okWhy("pkg/index|whole-hash", "-", "hashes are compared on all of their bytes", "no partial comparison and no integer key derived from hash bytes in pkg/index")
+			}
+			return nil
+		},
+	})
+}
